@@ -218,6 +218,11 @@ class AccfgGen:
 
     def simple(self, k, scope, mem=True):
         r, p = self.r, self.p
+        if k == "call" and p.get("local_callee") and r.random() < p["local_callee"]:
+            # a call to a function that is defined in the module and sets up (and launches) one of the accelerators itself
+            self.tag += 1
+            a = r.randrange(p["n_acc"])
+            return {"k": "call", "eff": "unannotated", "tag": self.tag, "callee": "local", "acc": a, "vals": [r.choice([x for x in scope if x not in INDEX_ARGS] or ["%x0"]) for _ in range(p["n_fields"][a])]}
         if k == "call":
             self.tag += 1
             return {
@@ -259,6 +264,13 @@ class AccfgGen:
         if self.p.get("memory"):
             ast["memory"] = True
         return ast
+
+
+def _walk_stmts(body):
+    for s in body:
+        yield s
+        for key in ("body", "then", "else", "gap"):
+            yield from _walk_stmts(s.get(key, []))
 
 
 def has_kind(s, kind):
@@ -413,7 +425,10 @@ def emit(ast, acc_names=None, vty="i32", decls=()) -> str:
                     e(ind, "}")
         elif k == "call":
             eff = {"none": '"accfg.effects" = #accfg.effects<none>, ', "full": '"accfg.effects" = #accfg.effects<full>, ', "unannotated": ""}[s["eff"]]
-            if s.get("callee") == "llvm":
+            if s.get("callee") == "local":
+                tys = ", ".join(vty for _ in s["vals"])
+                e(ind, f'func.call @loc{s["acc"]}({", ".join(s["vals"])}) {{"vtag" = {s["tag"]} : i64}} : ({tys}) -> ()')
+            elif s.get("callee") == "llvm":
                 e(ind, f'"llvm.call"() <{{callee = @lext, fastmathFlags = #llvm.fastmath<none>, CConv = #llvm.cconv<ccc>, TailCallKind = #llvm.tailcallkind<none>, operandSegmentSizes = array<i32: 0, 0>, op_bundle_sizes = array<i32>}}> {{{eff}"vtag" = {s["tag"]} : i64}} : () -> ()')
             else:
                 e(ind, f'func.call @ext() {{{eff}"vtag" = {s["tag"]} : i64}} : () -> ()')
@@ -507,6 +522,16 @@ def emit(ast, acc_names=None, vty="i32", decls=()) -> str:
     stmts(2, ast["body"])
     e(2, "func.return")
     e(1, "}")
+    for a in sorted({s_["acc"] for s_ in _walk_stmts(ast["body"]) if s_["k"] == "call" and s_.get("callee") == "local"}):
+        fields = names[a]["fields"]
+        an = names[a]["name"]
+        e(1, f'func.func @loc{a}({", ".join(f"%q{j} : {vty}" for j in range(len(fields)))}) {{')
+        fs = ", ".join(f'"{f}" = %q{j} : {vty}' for j, f in enumerate(fields))
+        e(2, f'%ls = accfg.setup "{an}" to ({fs}) : !accfg.state<"{an}">')
+        e(2, f'%lt = "accfg.launch"(%ls) <{{param_names = [], accelerator = "{an}"}}> : (!accfg.state<"{an}">) -> !accfg.token<"{an}">')
+        e(2, f'"accfg.await"(%lt) : (!accfg.token<"{an}">) -> ()')
+        e(2, "func.return")
+        e(1, "}")
     e(0, "}")
     return "\n".join(L)
 
@@ -571,6 +596,8 @@ def shrink_body(body):
                     yield body[:i] + [dict(s, **{fld: simple})] + body[i + 1 :]
         if k == "call" and s.get("callee") == "llvm":
             yield body[:i] + [dict(s, callee="func")] + body[i + 1 :]
+        if k == "call" and s.get("callee") == "local":
+            yield body[:i] + [{kk: vv for kk, vv in dict(s, callee="func").items() if kk not in ("acc", "vals")}] + body[i + 1 :]
         if k == "sl":
             for j, v in enumerate(s["vals"]):
                 if v != "%x0":
